@@ -132,9 +132,15 @@ func checkHeader(t fataler, m mHeader, reuse *mHeader) {
 	wantHash := common.Hash(kit.Blake256(ref))
 
 	// decode the reference bytes into a fresh header
+	// (from a read buffer that is overwritten after the call, as a network stream's
+	// pooled buffer is: the decoded header must not alias it)
 	dec := types.NewEmptyHeader()
-	if err := scale.Unmarshal(ref, dec); err != nil {
+	wire := append([]byte{}, ref...)
+	if err := scale.Unmarshal(wire, dec); err != nil {
 		t.Fatalf("decoding spec-valid header %s (bytes %x): %v", m, hb(ref), err)
+	}
+	for i := range wire {
+		wire[i] ^= 0xa5
 	}
 	if err := sameHeader(m, dec); err != nil {
 		t.Fatalf("decoded header differs from %s: %v", m, err)
@@ -351,14 +357,22 @@ func TestC14Body(t *testing.T) {
 				t.Fatalf("%s: re-encoding %x (err %v), want %x", what, hb(re), err, hb(ref))
 			}
 		}
-		b1, err := types.NewBodyFromBytes(ref)
+		wire1 := append([]byte{}, ref...)
+		b1, err := types.NewBodyFromBytes(wire1)
 		if err != nil {
 			t.Fatalf("NewBodyFromBytes(%x): %v", hb(ref), err)
 		}
+		for i := range wire1 {
+			wire1[i] ^= 0xa5 // the read buffer is reused by the caller
+		}
 		same("NewBodyFromBytes", b1)
 		var b2 types.Body
-		if err := scale.Unmarshal(ref, &b2); err != nil {
+		wire2 := append([]byte{}, ref...)
+		if err := scale.Unmarshal(wire2, &b2); err != nil {
 			t.Fatalf("Unmarshal body %x: %v", hb(ref), err)
+		}
+		for i := range wire2 {
+			wire2[i] ^= 0xa5
 		}
 		same("Unmarshal", &b2)
 		b3, err := types.NewBodyFromEncodedBytes(encoded)
@@ -687,7 +701,6 @@ func TestC14GrandpaTypes(t *testing.T) {
 		}
 	})
 }
-
 
 // ---------------------------------------------------------------- known finding witness + fixed regressions
 
